@@ -60,6 +60,11 @@ def install():
             output = orig(self, input)
         finally:
             STATE.depth -= 1
+        if isinstance(output, np.ndarray) and output.size <= (1 << 20):
+            # magnitude of the largest intermediate result: scale for round-off floors
+            n = float(np.linalg.norm(output.ravel()))
+            if n > STATE.peak and n == n:
+                STATE.peak = n
         if is_arr:
             cnt["Linop.apply:checked"] += 1
             name = type(self).__name__
